@@ -98,6 +98,7 @@ def scenario(seed, n_threads, per_thread, partial, inbound, lines, limit, sizes)
     TR.TcpConnection._set_selector_events_mask, TR.TcpConnection.write, TR.TcpConnection.read = mask, write, read
     d = Diameter(config=dict(CFG))
     submitted = {}
+    last_e2e = {}
     done = []
     state = {"cea": False, "pending_in": [], "after": None}
     try:
@@ -110,6 +111,10 @@ def scenario(seed, n_threads, per_thread, partial, inbound, lines, limit, sizes)
                     mods.time.sleep(0.01)
                 for j in range(per_thread):
                     r = DiameterRequest(command_code=316, application_id=16777251)
+                    if j and rng.random() < 0.25:
+                        # a retransmission-like request: the End-to-End identifier of this thread's previous request, new Hop-by-Hop
+                        r.header.end_to_end = last_e2e[t]
+                    last_e2e[t] = r.header.end_to_end
                     r.append(UserNameAVP("t%d-m%d-" % (t, j) + "x" * rng.choice(sizes)))
                     submitted.setdefault(t, []).append(r.dump())
                     d.send_message(r)
@@ -200,6 +205,11 @@ def verdict(res, n_threads):
         if pos != sorted(pos):
             return ("a submitter's messages were written out of its submission order", {"thread": t, "positions": pos})
     if res["idle"]:
+        for t, subs in res["submitted"].items():
+            lost = [m for m in subs if m not in have]
+            if lost:
+                return ("%d message(s) submitted by a thread (send_message returned normally) never reached the socket although every stage of the "
+                        "pipeline is empty (lost)" % len(lost), {"thread": t, "first_missing_prefix": lost[0][:40].hex(), "accepted_by_queue": lost[0] in want})
         missing = [m for m in want if have.get(m, 0) < want[m]]
         if missing:
             return ("%d accepted message(s) never reached the socket although every stage of the pipeline is empty (lost)" % len(missing),
@@ -233,6 +243,8 @@ def explore(chk, rng, n, tag):
     logging.disable(logging.CRITICAL)
     lines, meta = [], []
     for _ in range(n):
+        if chk.saturated():
+            break
         seed = rng.randrange(2 ** 30)
         n_threads = rng.choice([1, 2, 3])
         per_thread = rng.choice([1, 3, 6])
